@@ -388,10 +388,12 @@ def commutable(pdesc):
 def cases(ctx):
     rng = ctx.rng
     yield from corpus()
+    yield from sweep(ctx)
     if ctx.tier == "quick":
-        n_pat, hosts = 260, (1, 4, 1)
+        n_pat, hosts = 200, (1, 4, 1)
     else:
-        n_pat, hosts = 2500, (2, 8, 2)
+        n_pat, hosts = 1500, (2, 6, 2)
+    rate = {"coq_rate": 0.6 if ctx.tier == "quick" else 0.3}
     for i in range(n_pat):
         p = random_pattern(rng, 3)
         commute = commutable(p) and rng.random() < 0.3
@@ -399,13 +401,221 @@ def cases(ctx):
         if commute:
             hs += hosts_for(rng, swapped(rng, p), 2, 2, 0)
         for h in hs:
-            yield p, h, commute, "random3"
+            yield p, h, commute, "random3", rate
             if rng.random() < 0.15:
                 hl = lift(rng, h)
                 if hl is not None:
-                    yield p, hl, commute, "nested"
+                    yield p, hl, commute, "nested", rate
     if ctx.tier == "thorough":
         for i in range(400):
             p = random_pattern(rng, 8)
             for h in hosts_for(rng, p, 1, 3, 1, max_random_nodes=20):
-                yield p, h, False, "random8"
+                yield p, h, False, "random8", rate
+
+
+# ----------------------------------------------------------------------------- the bounded-exhaustive family
+
+def _params(nodes, ors, outs):
+    names = []
+
+    def visit(v):
+        if v is None:
+            return
+        if v[0] == "var" and v[1] not in names:
+            names.append(v[1])
+        if v[0] == "or":
+            for a in ors[v[1]]["alts"]:
+                visit(a)
+
+    for nd in nodes:
+        for i in nd["ins"]:
+            visit(i)
+        for _, a in nd.get("attrs", []):
+            if a[0] == "v" and a[1] not in names:
+                names.append(a[1])
+    for o in outs:
+        visit(o)
+    return names
+
+
+def _pat(nodes, outs=None, ors=()):
+    ors = list(ors)
+    if outs is None:
+        outs = [["out", len(nodes) - 1, 0]]
+    return {"params": _params(nodes, ors, outs), "nodes": nodes, "ors": ors, "outs": outs}
+
+
+def exhaustive_patterns():
+    """Patterns with <= 3 node patterns over {unary Relu/Neg, commutative Add, non-commutative Sub, 2-output Split}
+    x the features of the property's quantifier, enumerated explicitly (deterministic order)."""
+    X, Y = ["var", "x"], ["var", "y"]
+    C1 = ["const", 1.0, None, None]
+    ANY = ["any"]
+    leaves = [X, Y, C1, ANY]
+    pats = []
+    # ---- one node
+    for a in leaves:
+        pats.append(_pat([{"op": "Relu", "ins": [a]}]))
+        pats.append(_pat([{"op": "Split", "ins": [a], "outs": 2}], [["out", 0, 0], ["out", 0, 1]]))
+    for op in ("Add", "Sub"):
+        for a in leaves:
+            for b in leaves:
+                pats.append(_pat([{"op": op, "ins": [a, b]}]))
+    # one node x features
+    for op, ins in (("Relu", [X]), ("Sub", [X, Y]), ("Sub", [X, X])):
+        for attrs in ([["axis", ["c", 1]]], [["axis", ["v", "a"]]], [["axis", ["ov", "a"]]], [["axis", ["c", 1]], ["mode", ["c", "k"]]],
+                      [["axis", ["v", "x"]]], []):
+            for oa in (None, False):
+                if not attrs and oa is None:
+                    continue
+                pats.append(_pat([{"op": op, "ins": ins, "attrs": attrs, "other_attrs": oa}]))
+        pats.append(_pat([{"op": op, "ins": ins, "other_ins": True}]))
+        pats.append(_pat([{"op": op, "ins": ins + [None]}]))
+        pats.append(_pat([{"op": op, "ins": ins + [["ovar", "u"]]}]))
+        pats.append(_pat([{"op": op, "ins": ins + [["ovar", "u"]], "other_ins": True}]))
+        pats.append(_pat([{"op": op, "ins": ins, "dom": "custom"}]))
+        pats.append(_pat([{"op": op, "ins": ins, "outs": ["t"]}]))
+        pats.append(_pat([{"op": op, "ins": ins, "outs": 2}], [["out", 0, 0]]))
+    pats.append(_pat([{"op": "Sub", "ins": [["const", 1.0, 1e-3, None], ["const", [1.0, 2.0], None, 0.5]]}]))
+    # ---- two nodes: child then root
+    children = [{"op": "Relu", "ins": [X]}, {"op": "Relu", "ins": [Y]}, {"op": "Add", "ins": [X, Y]}, {"op": "Sub", "ins": [X, Y]},
+                {"op": "Split", "ins": [X], "outs": 2}, {"op": "Split", "ins": [X], "outs": ["s0", None]}]
+    for ch in children:
+        k = 2 if ch["op"] == "Split" else 1
+        for i in range(k):
+            o = ["out", 0, i]
+            pats.append(_pat([ch, {"op": "Relu", "ins": [o]}]))
+            pats.append(_pat([ch, {"op": "Neg", "ins": [o]}], [["out", 1, 0], o]))             # two outputs, one output node
+            for op in ("Add", "Sub"):
+                for other in (X, Y, C1, o):
+                    pats.append(_pat([ch, {"op": op, "ins": [o, other]}]))
+                    pats.append(_pat([ch, {"op": op, "ins": [other, o]}]))
+        if k == 2:
+            for op in ("Add", "Sub"):
+                pats.append(_pat([ch, {"op": op, "ins": [["out", 0, 0], ["out", 0, 1]]}]))
+                pats.append(_pat([ch, {"op": op, "ins": [["out", 0, 1], ["out", 0, 0]]}]))
+    # ---- three nodes
+    unary_kids = [{"op": "Relu", "ins": [X]}, {"op": "Relu", "ins": [Y]}, {"op": "Neg", "ins": [X]}, {"op": "Split", "ins": [X], "outs": 2}]
+    for a in unary_kids:
+        for b in unary_kids:
+            for op in ("Add", "Sub"):
+                pats.append(_pat([a, b, {"op": op, "ins": [["out", 0, 0], ["out", 1, 0]]}]))
+    for a in unary_kids:                                     # chains and diamonds over one shared grandchild
+        for mid in ("Relu", "Neg"):
+            pats.append(_pat([a, {"op": mid, "ins": [["out", 0, 0]]}, {"op": "Relu", "ins": [["out", 1, 0]]}]))
+            for op in ("Add", "Sub"):
+                pats.append(_pat([a, {"op": mid, "ins": [["out", 0, 0]]}, {"op": op, "ins": [["out", 1, 0], ["out", 0, 0]]}]))
+                pats.append(_pat([a, {"op": mid, "ins": [["out", 0, 0]]}, {"op": op, "ins": [["out", 0, 0], ["out", 1, 0]]}]))
+    # several output nodes
+    pats.append(_pat([{"op": "Relu", "ins": [X]}, {"op": "Neg", "ins": [X]}], [["out", 0, 0], ["out", 1, 0]]))
+    pats.append(_pat([{"op": "Relu", "ins": [X]}, {"op": "Relu", "ins": [Y]}], [["out", 0, 0], ["out", 1, 0]]))
+    pats.append(_pat([{"op": "Relu", "ins": [X]}, {"op": "Neg", "ins": [["out", 0, 0]]}, {"op": "Sub", "ins": [["out", 0, 0], Y]}],
+                     [["out", 1, 0], ["out", 2, 0]]))
+    pats.append(_pat([{"op": "Relu", "ins": [X]}, {"op": "Relu", "ins": [Y]}, {"op": "Relu", "ins": [["var", "z"]]}],
+                     [["out", 0, 0], ["out", 1, 0], ["out", 2, 0]]))
+    # ---- OrValue
+    for tag in (None, "tag"):
+        for name in (None, "o"):
+            base = {"name": name, "tagv": tag}
+            # dispatch on the operator
+            pats.append(_pat([{"op": "Relu", "ins": [X]}, {"op": "Neg", "ins": [X]}, {"op": "Sub", "ins": [["or", 0], Y]}],
+                             ors=[dict(base, alts=[["out", 0, 0], ["out", 1, 0]])]))
+            # backtracking: same operator twice / a variable among the alternatives
+            pats.append(_pat([{"op": "Relu", "ins": [X]}, {"op": "Relu", "ins": [Y]}, {"op": "Sub", "ins": [["or", 0], Y]}],
+                             ors=[dict(base, alts=[["out", 0, 0], ["out", 1, 0]])]))
+            pats.append(_pat([{"op": "Relu", "ins": [X]}, {"op": "Sub", "ins": [["or", 0], X]}],
+                             ors=[dict(base, alts=[["out", 0, 0], Y])]))
+            pats.append(_pat([{"op": "Relu", "ins": [X]}, {"op": "Sub", "ins": [["or", 0], X]}],
+                             ors=[dict(base, alts=[Y, ["out", 0, 0]], tags=[7, 9] if tag else None)]))
+            # a pattern node shared between an alternative and the rest (DESIGN 7, F16)
+            pats.append(_pat([{"op": "Relu", "ins": [X]}, {"op": "Neg", "ins": [["out", 0, 0]]}, {"op": "Add", "ins": [["or", 0], ["out", 0, 0]]}],
+                             ors=[dict(base, alts=[["out", 1, 0], Y])]))
+            pats.append(_pat([{"op": "Relu", "ins": [X]}, {"op": "Neg", "ins": [["out", 0, 0]]}, {"op": "Add", "ins": [["out", 0, 0], ["or", 0]]}],
+                             ors=[dict(base, alts=[["out", 1, 0], ["const", 1.0, None, None]])]))
+            pats.append(_pat([{"op": "Split", "ins": [X], "outs": 2}, {"op": "Neg", "ins": [["out", 0, 1]]}, {"op": "Sub", "ins": [["or", 0], ["out", 0, 0]]}],
+                             ors=[dict(base, alts=[["out", 1, 0], ["out", 0, 1]])]))
+    return pats
+
+
+def exhaustive_hosts(max_nodes):
+    """All host graphs with <= max_nodes nodes over {Relu, Add, Sub, Split}, inputs drawn from two graph inputs, one
+    constant and earlier results; every value without a consumer is a graph output."""
+    ops = [("Relu", 1, 1), ("Add", 2, 1), ("Sub", 2, 1), ("Split", 1, 2)]
+    out = []
+
+    def rec(nodes, avail, nxt):
+        if nodes:
+            used = {i for n in nodes for i in n["ins"]}
+            produced = [o for n in nodes for o in n["outs"]]
+            gouts = [o for o in produced if o not in used] or [produced[-1]]
+            out.append({"nodes": copy.deepcopy(nodes), "inputs": [0, 1], "outs": gouts, "consts": {"2": 1.0}})
+        if len(nodes) == max_nodes:
+            return
+        for op, ar, no in ops:
+            for ins in itertools.product(avail, repeat=ar):
+                outs = list(range(nxt, nxt + no))
+                rec(nodes + [{"op": op, "dom": "", "attrs": [], "ins": list(ins), "outs": outs}], avail + outs, nxt + no)
+
+    rec([], [0, 1, 2], 3)
+    return out
+
+
+def host_variants(rng, h):
+    """Feature variants of a plain host: attributes, an extra / a missing input, a domain, an intermediate value
+    that is also a graph output."""
+    hs = []
+    h2 = copy.deepcopy(h)
+    for n in h2["nodes"]:
+        r = rng.random()
+        if r < 0.35:
+            n["attrs"] = [["axis", rng.choice([1, 2])]]
+        elif r < 0.5:
+            n["attrs"] = [["axis", 1], ["mode", rng.choice(["k", "j"])]]
+        elif r < 0.6:
+            n["attrs"] = [["extra", 5]]
+        r = rng.random()
+        if r < 0.15:
+            n["ins"] = n["ins"] + [rng.choice([0, 1, None])]
+        elif r < 0.22 and len(n["ins"]) > 1:
+            n["ins"] = n["ins"][:-1]
+        if rng.random() < 0.1:
+            n["dom"] = "custom"
+        if rng.random() < 0.15 and n["op"] != "Split":
+            n["outs"] = n["outs"] + [max(o for m in h2["nodes"] for o in m["outs"]) + 10 + len(hs)]
+    hs.append(h2)
+    h3 = copy.deepcopy(h)
+    produced = [o for n in h3["nodes"] for o in n["outs"]]
+    extra = [o for o in produced if o not in h3["outs"]]
+    if extra:
+        h3["outs"] = h3["outs"] + [rng.choice(extra)]
+        hs.append(h3)
+    return hs
+
+
+def sweep(ctx):
+    """(pattern, host, commute, tag, options) over the bounded-exhaustive family; quick = a seeded slice."""
+    rng = ctx.rng
+    pats = exhaustive_patterns()
+    small = exhaustive_hosts(2)
+    three = exhaustive_hosts(3)[len(small):]
+    if ctx.tier == "quick":
+        pats = rng.sample(pats, 45)
+        hosts = rng.sample(small, 30) + rng.sample(three, 40)
+        rate = 0.25
+    else:
+        hosts = small + rng.sample(three, 400)
+        rate = 0.03
+    extra = []
+    for h in rng.sample(hosts, min(len(hosts), 30 if ctx.tier == "quick" else 150)):
+        extra += host_variants(rng, h)
+    four = []
+    for _ in range(20 if ctx.tier == "quick" else 200):
+        four.append(random_host(rng, 4))
+    hosts = hosts + extra + [h for h in four if toposort_ok(h)]
+    for p in pats:
+        commute = commutable(p)
+        for h in hosts:
+            yield p, h, False, "sweep", {"coq_rate": rate, "cache_host": True}
+        if commute:
+            for h in rng.sample(hosts, min(len(hosts), 40 if ctx.tier == "quick" else 300)):
+                yield p, h, True, "sweep-commute", {"coq_rate": rate, "cache_host": True}
